@@ -1,1 +1,82 @@
-Require Import Pk.Bitmask Pk.BitmaskProofs.
+(* C17 -- Bitmask containers behave like sets of integers.
+   Only statements; every proof is `exact` of a lemma from theories/Bitmask*.v.
+   Model: theories/Bitmask.v (ConnectedBitmask = run list, Short/LongBitmask = word lists),
+   histories = lists of [bop] over a register file, run in parallel on the three
+   representations ([bstep]) and on plain integer sets N -> bool ([sstep]). *)
+From Coq Require Import NArith List Bool.
+Require Import Pk.Bitmask Pk.BitmaskProofs Pk.BitmaskWordProofs Pk.BitmaskHistory.
+Open Scope N_scope.
+
+(* (1) For EVERY operation history (set, unset, flip, or/and/xor/sub in place and as copy,
+   copy, shrink, inject, extract; any operands, any registers) and every register:
+   the representation invariants hold and membership in each of the three
+   representations equals membership in the integer-set model. *)
+Theorem C17_history_membership : forall (ops : list bop) (r : nat) (b : N),
+  let st := fold_left bstep ops binit in
+  let sp := fold_left sstep ops sinit in
+  wf_c (rc st r) /\ wf_w (rs st r) /\ wf_w (rl st r) /\ rs st r <> [] /\
+  c_isset (rc st r) b = sp r b /\ w_isset (rs st r) b = sp r b /\ w_isset (rl st r) b = sp r b.
+Proof. exact history_membership_proof. Qed.
+
+(* (2) ... and every observer agrees with the set model and across representations:
+   IsZero, Equal (between any two registers), Len (= 1 + largest member), OnesCount
+   (= number of members), Next (least member >= b). *)
+Theorem C17_history_observers : forall (ops : list bop) (r r' : nat) (b : N) (n : nat),
+  let st := fold_left bstep ops binit in
+  let sp := fold_left sstep ops sinit in
+  (* IsZero *)
+  ((c_iszero (rc st r) = true <-> forall i, sp r i = false) /\
+   w_iszero (rs st r) = c_iszero (rc st r) /\ w_iszero (rl st r) = c_iszero (rc st r)) /\
+  (* Equal *)
+  ((c_equal (rc st r) (rc st r') = true <-> forall i, sp r i = sp r' i) /\
+   w_equal (rs st r) (rs st r') = c_equal (rc st r) (rc st r') /\
+   w_equal (rl st r) (rl st r') = c_equal (rc st r) (rc st r')) /\
+  (* Len *)
+  ((forall i, sp r i = true -> i < c_len (rc st r)) /\
+   (c_len (rc st r) = 0 \/ sp r (c_len (rc st r) - 1) = true) /\
+   w_len (rs st r) = c_len (rc st r) /\ w_len (rl st r) = c_len (rc st r)) /\
+  (* OnesCount, counted below any bound n that covers the mask *)
+  (c_len (rc st r) <= N.of_nat n ->
+   c_count (rc st r) = count_upto (sp r) n /\ w_count (rs st r) = count_upto (sp r) n /\
+   w_count (rl st r) = count_upto (sp r) n) /\
+  (* Next *)
+  match l_next (rl st r) b with
+  | Some p => b <= p /\ sp r p = true /\ forall i, b <= i -> i < p -> sp r i = false
+  | None => forall i, b <= i -> sp r i = false
+  end.
+Proof. exact history_observers_proof. Qed.
+
+(* (3) the bit returned by Extract is the membership of the removed position *)
+Theorem C17_extract_returns_member : forall (ops : list bop) (r : nat) (b : N),
+  let st := fold_left bstep ops binit in
+  let sp := fold_left sstep ops sinit in
+  snd (c_extract (rc st r) b) = sp r b /\ snd (s_extract (rs st r) b) = sp r b.
+Proof. exact extract_returns_member_proof. Qed.
+
+(* (4) MakeConnectedBitmask(min,max) is the interval, for min <= max *)
+Theorem C17_make : forall mn mx, mn <= mx ->
+  wf_c (c_make mn mx) /\ forall i, mem_c (c_make mn mx) i = (mn <=? i) && (i <=? mx).
+Proof. exact make_proof. Qed.
+
+(* (5) the two defects repaired by the fix: commits, as refutations of the pre-fix code *)
+Theorem C17_xor_prefix_refuted :
+  exists a b, wf_c a /\ wf_c b /\ c_equal (c_xor_prefix a b) (c_make 1 10) = false /\
+              forall i, mem_c (c_xor_prefix a b) i = mem_c (c_make 1 10) i.
+Proof. exact xor_prefix_refuted_proof. Qed.
+
+Theorem C17_extract_wrap_refuted :
+  exists l b, wf_c l /\ mem_c l 5 = false /\
+              mem_c (fst (c_extract_rev_gen true l b)) 5 = true.
+Proof. exact extract_wrap_refuted_proof. Qed.
+
+(* (6) non-vacuity: a concrete history reaching a non-trivial state in all three representations *)
+Example C17_history_example :
+  let ops := [OSet 0 5; OSet 0 64; OInject 0 3 true; OOr 1 0 0; OFlip 1 65; OXor 2 0 1; OExtract 0 6;
+              OSet 3 1; OSet 3 2; OSet 3 4; OXor 3 3 2] in
+  let st := fold_left bstep ops binit in
+  rc st 0 = [(3, 3); (64, 64)] /\ rc st 3 = [(1, 2); (4, 4); (65, 65)] /\ rs st 0 = [8; 1] /\ rl st 2 = [0; 2].
+Proof. exact history_example_proof. Qed.
+
+Print Assumptions C17_history_membership.
+Print Assumptions C17_history_observers.
+Print Assumptions C17_extract_returns_member.
